@@ -75,7 +75,7 @@ Section Obj.
 
   Definition sound_kind (k k' : pkind) : Prop :=
     forall v pv hc, jscope v = true -> clean_kind vr w rc rp ro k false false v = Ok (pv, hc) ->
-                    hc = false /\ exists n, valid_kind sp pok n k' (encode false pv) = true.
+                    hc = false /\ nice pv /\ exists n, valid_kind sp pok n k' (encode false pv) = true.
 
   Variables c sc : cls.     (* the library's class and the specification's class of the same id *)
 
@@ -88,7 +88,7 @@ Section Obj.
       exists s, find_slot c (sname s') = Some s /\ always_present s = true.
 
   Definition entry_ok (n : ustring) (x : pval) : Prop :=
-    exists s', find_slot sc n = Some s' /\ exists m, valid_kind sp pok m (skind s') (encode false x) = true.
+    nice x /\ exists s', find_slot sc n = Some s' /\ exists m, valid_kind sp pok m (skind s') (encode false x) = true.
 
   Definition Inv (setting : list (ustring * pval)) : Prop :=
     NoDup (map fst setting) /\ forall k x, In (k, x) setting -> entry_ok k x.
@@ -145,11 +145,11 @@ Section Obj.
       + destruct Hraw as [-> Hraw].
         destruct (clean_kind vr w rc rp ro (skind s) false false j) as [[v hc]| |] eqn:Ec; try discriminate.
         inv_bind H. inversion Hb; subst. clear Hb Ha.
-        destruct (Hsk j v hc' Hraw Ec) as [-> [m Hm]].
+        destruct (Hsk j v hc' Hraw Ec) as [-> [Hnice [m Hm]]].
         split; auto. split; [|split; [|split]].
         * split; [apply keys_aset_nodup; auto|].
           intros k x Hin. apply In_aset_nodup in Hin; auto. destruct Hin as [[-> ->] | [Hin Hne]].
-          -- exists s'. split; eauto.
+          -- split; auto. exists s'. split; eauto.
           -- apply Hoth; auto.
         * intros k Hk. rewrite amem_aset, Hk. apply orb_true_r.
         * intros k Hk. rewrite amem_aset in Hk. apply orb_true_iff in Hk. destruct Hk as [Hk | Hk]; auto.
@@ -157,16 +157,16 @@ Section Obj.
         * intros _. rewrite amem_aset, ustr_eqb_refl. auto.
       + destruct Hraw as [He Hc]. assert (setting' = st /\ hc' = false) as [-> ->].
         { destruct isnow; inversion H; subst; auto. }
-        repeat split; auto; try (eapply Keep; eauto; fail). apply (Keep _ eq_refl He). apply (Keep _ eq_refl He).
+        split; [auto|split; [apply (Keep _ El He)|repeat split; auto]].
       + destruct Hraw as [He Hc]. assert (setting' = st /\ hc' = false) as [-> ->].
         { destruct isnow; inversion H; subst; auto. }
-        repeat split; auto. apply (Keep _ eq_refl He). apply (Keep _ eq_refl He).
+        split; [auto|split; [apply (Keep _ El He)|repeat split; auto]].
       + destruct Hraw as [He Hc]. assert (setting' = st /\ hc' = false) as [-> ->].
         { destruct isnow; inversion H; subst; auto. }
-        repeat split; auto. apply (Keep _ eq_refl He). apply (Keep _ eq_refl He).
+        split; [auto|split; [apply (Keep _ El He)|repeat split; auto]].
       + destruct Hraw as [He Hc]. assert (setting' = st /\ hc' = false) as [-> ->].
         { destruct isnow; inversion H; subst; auto. }
-        repeat split; auto. apply (Keep _ eq_refl He). apply (Keep _ eq_refl He).
+        split; [auto|split; [apply (Keep _ El He)|repeat split; auto]].
     - inversion H; subst. repeat split; auto.
       intros k x Hin. apply Hoth; auto. intros ->. rewrite (alookup_In_nodup _ _ _ ND Hin) in El. discriminate.
   Qed.
@@ -215,8 +215,9 @@ Section Obj.
                  amem n setting' = true).
       { intros v isn -> -> Hv.
         destruct (clean_present_ok s vrefs (aset n v setting1) isn setting' hc' Hs) as (A & B & C & D & E); auto.
-        - apply keys_aset_nodup; auto.
-        - fold n. rewrite alookup_aset_same. exact Hv.
+        all: try (apply keys_aset_nodup; auto; fail).
+        all: try (intros k x Hin Hne; eapply Hoth'; eauto; fail).
+        all: try (fold n; rewrite alookup_aset_same; exact Hv).
         - repeat split; auto; try apply B.
           + intros k Hk. apply C. rewrite amem_aset, Hk. apply orb_true_r.
           + intros k Hk. destruct (D k Hk) as [Hk' | Hk']; auto. rewrite amem_aset in Hk'.
@@ -227,30 +228,252 @@ Section Obj.
         inversion Ha; subst. clear Ha.
         destruct (clean_present_ok s vrefs st false setting' hc' Hs ND Hothers) as (A & B & C & D & E); auto.
         { fold n. rewrite El. auto. }
-        repeat split; auto; try apply B. unfold default_present. rewrite Ed. discriminate.
+        all: repeat split; auto; try apply B.
+        all: try (unfold default_present; rewrite Ed; discriminate).
       + (* fixed *)
         destruct (skind s) eqn:Ek; try discriminate. inversion Ha; subst. clear Ha.
         destruct (Put (PJ (JStr v)) false) as (A & B & C & D & E); auto.
-        repeat split; auto; apply B.
+        all: repeat split; auto; try apply B.
       + (* the clock *)
         destruct (skind s) eqn:Ek; try discriminate.
         destruct (ts_clean_now (vr_year_pad vr) p c0 (e_now ev)) as [r| |] eqn:Et; try discriminate.
         simpl in Ha. inversion Ha; subst. clear Ha.
         destruct (Put (PTime (fst r) (snd r)) true) as (A & B & C & D & E); auto.
-        { split; auto. exists s'. split; auto. rewrite Ek in Hkr. destruct (skind s') eqn:Ek'; simpl in Hkr; try discriminate.
+        { rewrite Hpad in Et. pose proof (ts_clean_now_valid _ _ _ _ Et) as Hvt.
+          split; auto. split; [simpl; eapply valid_timestamp_nonempty; eauto|].
+          exists s'. split; auto. destruct (skind s') eqn:Ek'; simpl in Hkr; try discriminate.
           apply andb_true_iff in Hkr. destruct Hkr as [Hp Hc].
           assert (p0 = p) by (destruct p, p0; simpl in Hp; auto; discriminate).
           assert (c1 = c0) by (destruct c0, c1; simpl in Hc; auto; discriminate). subst.
-          exists 1%nat. simpl. rewrite Hpad in Et. eapply ts_clean_now_valid; eauto. }
-        repeat split; auto; apply B.
+          exists 1%nat. simpl. exact Hvt. }
+        all: repeat split; auto; try apply B.
       + (* uuid4 *)
         destruct (skind s) eqn:Ek; try discriminate. inversion Ha; subst. clear Ha.
         destruct (Put (PJ (JStr (prefix ++ e_uuid4 ev))) false) as (A & B & C & D & E); auto.
-        repeat split; auto; apply B.
+        all: repeat split; auto; try apply B.
       + (* a constant *)
         inversion Ha; subst. clear Ha.
         destruct (Put (PJ j) false) as (A & B & C & D & E); auto.
-        { eapply Hdconst; eauto. }
-        repeat split; auto; try apply B. unfold default_present. rewrite Ed. discriminate.
+        { split; auto. eapply Hdconst; eauto. }
+        all: repeat split; auto; try apply B.
+        all: try (unfold default_present; rewrite Ed; discriminate).
+  Qed.
+
+  (* ---- the loop over the class's properties ---- *)
+  Variable kwargs : list (ustring * jvalue).
+  Hypothesis Hkw : dict_scope kwargs = true.
+  Variable pre : list (ustring * pval).
+  Hypothesis Hpre : forall n x, alookup n pre = Some x ->
+      match x with PJ _ => False | _ => True end /\ entry_ok n x /\ pval_has_custom x = false.
+
+  Lemma assign_raw_spec n setting :
+    alookup n setting = None ->
+    let st := assign_raw kwargs [] pre n setting in
+    NoDup (map fst setting) -> 
+    NoDup (map fst st) /\
+    (forall k x, In (k, x) st -> k <> n -> In (k, x) setting) /\
+    (forall k, amem k setting = true -> amem k st = true) /\
+    (forall k, amem k st = true -> amem k setting = true \/ k = n) /\
+    match alookup n st with
+    | Some (PJ j) => jscope j = true
+    | Some x => entry_ok n x /\ pval_has_custom x = false
+    | None => True
+    end.
+  Proof.
+    intros El st ND. unfold assign_raw in st.
+    assert (Same : st = setting -> NoDup (map fst st) /\
+      (forall k x, In (k, x) st -> k <> n -> In (k, x) setting) /\
+      (forall k, amem k setting = true -> amem k st = true) /\
+      (forall k, amem k st = true -> amem k setting = true \/ k = n) /\
+      match alookup n st with
+      | Some (PJ j) => jscope j = true
+      | Some x => entry_ok n x /\ pval_has_custom x = false
+      | None => True
+      end).
+    { intros ->. rewrite El. repeat split; auto. }
+    assert (Set_ : forall v, st = aset n v setting ->
+      match v with PJ j => jscope j = true | x => entry_ok n x /\ pval_has_custom x = false end ->
+      NoDup (map fst st) /\
+      (forall k x, In (k, x) st -> k <> n -> In (k, x) setting) /\
+      (forall k, amem k setting = true -> amem k st = true) /\
+      (forall k, amem k st = true -> amem k setting = true \/ k = n) /\
+      match alookup n st with
+      | Some (PJ j) => jscope j = true
+      | Some x => entry_ok n x /\ pval_has_custom x = false
+      | None => True
+      end).
+    { intros v -> Hv. rewrite alookup_aset_same. split; [apply keys_aset_nodup; auto|]. split; [|split; [|split]]; auto.
+      - intros k x Hin Hne. apply In_aset_nodup in Hin; auto. destruct Hin as [[-> _]|[Hin _]]; [contradiction|auto].
+      - intros k Hk. rewrite amem_aset, Hk. apply orb_true_r.
+      - intros k Hk. rewrite amem_aset in Hk. apply orb_true_iff in Hk. destruct Hk as [Hk|Hk]; auto.
+        right. apply ustr_eqb_eq. auto. }
+    subst st. destruct (alookup n pre) as [pv|] eqn:Ep.
+    - apply (Set_ pv); auto. destruct (Hpre _ _ Ep) as (A & B & C). destruct pv; auto; contradiction.
+    - simpl. destruct (alookup n kwargs) as [v|] eqn:Ek.
+      + pose proof (dict_scope_lookup _ _ _ Hkw Ek) as Hv.
+        destruct v as [|b|z|r|t|l|m].
+        * apply Same; auto.
+        * apply (Set_ (PJ (JBool b))); auto.
+        * apply (Set_ (PJ (JInt z))); auto.
+        * apply (Set_ (PJ (JFloat r))); auto.
+        * apply (Set_ (PJ (JStr t))); auto.
+        * destruct l as [|x l]; [apply Same; auto | apply (Set_ (PJ (JArr (x :: l)))); auto].
+        * apply (Set_ (PJ (JObj m))); auto.
+      + apply Same; auto.
+  Qed.
+
+  Lemma assign_loop_ok vrefs : forall l setting setting' hc',
+    NoDup l -> (forall n, In n l -> exists s, slot_of c n = Some s) ->
+    (forall k, amem k setting = true -> ~ In k l) ->
+    Inv setting ->
+    assign_loop vr ev w rc rp ro c false false vrefs kwargs [] pre l setting false = Ok (setting', hc') ->
+    hc' = false /\ Inv setting' /\
+    (forall k, amem k setting = true -> amem k setting' = true) /\
+    (forall n s, In n l -> slot_of c n = Some s -> default_present s = true -> amem n setting' = true).
+  Proof.
+    induction l as [|n rest IH]; intros setting setting' hc' NDl Hsl Hfresh HInv H.
+    - simpl in H. inversion H; subst. repeat split; auto; try apply HInv.
+      all: try (intros n s []; fail).
+    - simpl in H. inversion NDl as [|? ? Hn NDrest]; subst.
+      destruct (Hsl n (or_introl eq_refl)) as [s Hs]. rewrite Hs in H.
+      destruct (slot_of_spec _ _ Hs) as [Hin Hname].
+      assert (El : alookup n setting = None).
+      { apply amem_false. destruct (amem n setting) eqn:E; auto. exfalso. apply (Hfresh n E). left; auto. }
+      destruct HInv as [ND Hent].
+      destruct (assign_raw_spec n setting El ND) as (ND1 & Hold & Hmono1 & Hkeys1 & Hraw).
+      set (st := assign_raw kwargs [] pre n setting) in *.
+      inv_bind H. destruct a as [st2 hc2]. simpl in Hb.
+      destruct (check_property_ok s vrefs st st2 hc2 Hin ND1) as (A & B & C & D & E).
+      { rewrite Hname. intros k x Hk Hne. apply Hent. apply Hold; auto. }
+      { rewrite Hname. exact Hraw. }
+      { exact Ha. }
+      subst hc2. simpl in Hb.
+      destruct (IH st2 setting' hc' NDrest) as (A' & B' & C' & D'); auto.
+      { intros m Hm. apply Hsl. right; auto. }
+      { intros k Hk Hin'. destruct (D k Hk) as [Hk' | ->].
+        - destruct (Hkeys1 k Hk') as [Hk'' | ->].
+          + apply (Hfresh k Hk''). right; auto.
+          + apply Hn; auto.
+        - rewrite Hname in Hin'. apply Hn; auto. }
+      repeat split; auto; try apply B'.
+      intros m s0 [<- | Hm] Hs0 Hd.
+      + rewrite Hs in Hs0. inversion Hs0; subst s0. apply C'. rewrite <- Hname. apply E; auto.
+      + eapply D'; eauto.
+  Qed.
+
+  (* ---- the whole constructor ---- *)
+  Hypothesis Hfind : find_class (wclasses sp) (cid c) = Some sc.
+  Hypothesis Hfam : cfamily c = cfamily sc.
+
+  (* the members of the serialized object *)
+  Definition members (setting : list (ustring * pval)) : list (ustring * jvalue) :=
+    map (fun kv => (fst kv, encode false (snd kv))) (filter (kept false (defaulted_names c setting)) setting).
+
+  (* soundness of the constraint evaluation for this class (Proofs/SchemaConstr.v) *)
+  Hypothesis Hcon : forall fuel setting,
+      Inv setting ->
+      constr_all (eval_constr pok fuel c setting)
+                 ((match cfamily c with FExt => [CAtLeastOneDefault] | _ => [] end) ++ ccons c) = Ok tt ->
+      exists n, forallb (jconstr pok n sc (members setting))
+                        ((match cfamily sc with FExt => [CAtLeastOneDefault] | _ => [] end) ++ ccons sc) = true.
+
+  Lemma ext_scan_scope hs exts b :
+    forallb (fun kv => entry_scope (fst kv) (snd kv) && jscope (snd kv)) exts = true ->
+    ext_scan vr w hs exts = Ok b -> b = false.
+  Proof.
+    revert b. induction exts as [|[eid e] exts IH]; simpl; intros b Hsc H.
+    - inversion H; auto.
+    - apply andb_true_iff in Hsc. destruct Hsc as [Hsc1 Hsc2]. apply andb_true_iff in Hsc1. destruct Hsc1 as [_ He].
+      inv_bind H. assert (a = false).
+      { unfold ext_is_toplevel in Ha. destruct e; try (destruct (vr_ext_scan_guard vr); inversion Ha; auto; fail).
+        inversion Ha. apply dict_scope_not_toplevel. exact He. }
+      subst a. auto.
+  Qed.
+
+  Lemma defaulted_not_present s :
+    In s (cslots c) -> always_present s = true -> forall setting, mem_ustr (sname s) (defaulted_names c setting) = false.
+  Proof.
+    intros Hs Hap setting. apply mem_ustr_false. unfold defaulted_names. intros Hin.
+    apply in_map_iff in Hin. destruct Hin as [s2 [Hn Hf]]. apply filter_In in Hf. destruct Hf as [Hs2 Hc].
+    assert (s2 = s).
+    { pose proof (slot_of_self s2 Hs2) as A. rewrite Hn in A. rewrite (slot_of_self s Hs) in A. inversion A; auto. }
+    subst s2. apply andb_true_iff in Hc. destruct Hc as [Hr Hd].
+    unfold always_present in Hap. apply negb_true_iff in Hr. rewrite Hr in Hap. simpl in Hap.
+    destruct (sdef s); discriminate.
+  Qed.
+
+  Lemma construct_generic_ok fuel kwargs0 vrefs o :
+    kwargs0 = kwargs ->
+    construct_generic vr ev w pok sok rc rp ro fuel c false false kwargs0 pre vrefs = Ok o ->
+    good (cid c) o.
+  Proof.
+    intros -> H. unfold construct_generic in H.
+    rewrite (dict_scope_no_custom _ Hkw) in H. rewrite (aremove_absent _ _ (dict_scope_no_custom _ Hkw)) in H.
+    cbn [bind] in H.
+    (* the extension scan finds no unregistered toplevel-property-extension in scope *)
+    match type of H with bind ?scan _ = _ => destruct scan as [b| |] eqn:Escan; try discriminate end.
+    assert (b = false).
+    { destruct (alookup (u "extensions") kwargs) as [ev0|] eqn:Ee; [|inversion Escan; auto].
+      destruct (negb (truthy ev0)); [inversion Escan; auto|].
+      pose proof (dict_scope_lookup _ _ _ Hkw Ee) as Hev0.
+      destruct ev0; try (destruct (vr_ext_scan_guard vr); inversion Escan; auto; fail).
+      eapply ext_scan_scope; [apply dict_scope_forall; exact Hev0 | exact Escan]. }
+    subst b. cbn [bind] in H. cbv zeta in H.
+    set (prop_names := map sname (cslots c)) in *.
+    destruct (filter (fun k => negb (mem_ustr k prop_names)) (akeys kwargs)) as [|x xs] eqn:Eextra; [|discriminate].
+    simpl in H.
+    destruct (match cver c with V20 => false | V21 => false end) eqn:Ev; [destruct (cver c); discriminate|].
+    replace (match cver c with V20 => false | V21 => negb true end) with false in H by (destruct (cver c); auto).
+    rewrite app_nil_r in H.
+    match type of H with bind ?lp _ = _ => destruct lp as [[setting hc]| |] eqn:Eloop; try discriminate end.
+    cbn [bind] in H.
+    destruct (assign_loop_ok vrefs prop_names [] setting hc) as (Hhc & HInv & _ & Hdef); auto.
+    { apply unodup_NoDup. exact Hnames. }
+    { intros n Hn. unfold prop_names in Hn. apply in_map_iff in Hn. destruct Hn as [s [<- Hs]].
+      exists s. apply slot_of_self; auto. }
+    { intros k Hk. discriminate. }
+    { split; [constructor | intros k x []]. }
+    subst hc.
+    destruct (existsb (fun s => sreq s && negb (amem (sname s) setting)) (cslots c)) eqn:Emiss; [discriminate|].
+    inv_bind H. inv_bind Hb. clear Ha. simpl in Hbb. inversion Hbb; subst o. clear Hbb.
+    exists setting, (defaulted_names c setting). split; auto.
+    (* validity *)
+    destruct a0. destruct (Hcon fuel setting HInv Hba) as [nc Hnc].
+    assert (Hmem : exists N, forall kv, In kv (members setting) ->
+               match find (fun s => ustr_eqb (sname s) (fst kv)) (cslots sc) with
+               | Some s => valid_kind sp pok N (skind s) (snd kv) = true
+               | None => False
+               end).
+    { apply forall_exists_bound.
+      - intros n m kv Hle. destruct (find _ (cslots sc)); auto. apply valid_kind_mono; auto.
+      - intros kv Hin. unfold members in Hin. apply in_map_iff in Hin. destruct Hin as [[k x] [<- Hin]].
+        apply filter_In in Hin. destruct Hin as [Hin _]. simpl.
+        destruct HInv as [_ Hent]. destruct (Hent k x Hin) as [_ [s' [Hf [m Hm]]]].
+        unfold find_slot in Hf. rewrite Hf. eauto. }
+    destruct Hmem as [N HN].
+    exists (S (Nat.max N nc)).
+    rewrite encode_PObject. fold (members setting).
+    change (valid_obj_body sp (valid_kind sp pok (Nat.max N nc)) (jconstr pok (S (Nat.max N nc))) (cid c) (JObj (members setting)) = true).
+    unfold valid_obj_body. rewrite Hfind.
+    apply andb_true_iff. split; [apply andb_true_iff; split|].
+    - rewrite forallb_forall. intros kv Hin. specialize (HN kv Hin).
+      destruct (find _ (cslots sc)); [|contradiction]. eapply valid_kind_mono; [|exact HN]. lia.
+    - rewrite forallb_forall. intros s' Hs'. destruct (spec_required sc s') eqn:Er; auto. simpl.
+      destruct (Hreq s' Hs' Er) as [s [Hfs Hap]].
+      destruct (find_slot_spec _ _ _ Hfs) as [Hs Hn].
+      assert (Hpres : amem (sname s') setting = true).
+      { unfold always_present in Hap. destruct (sreq s) eqn:Esr.
+        - rewrite <- Hn. destruct (amem (sname s) setting) eqn:Ea; auto.
+          exfalso. assert (existsb (fun s => sreq s && negb (amem (sname s) setting)) (cslots c) = true).
+          { apply existsb_exists. exists s. split; auto. rewrite Esr, Ea. auto. }
+          congruence.
+        - simpl in Hap. rewrite <- Hn. eapply Hdef; eauto.
+          + unfold prop_names. apply in_map. auto.
+          + apply slot_of_self. auto. }
+      rewrite jlookup_alookup. unfold members, kept. rewrite alookup_map_encode.
+      rewrite (alookup_filter_keys (fun k => false || negb (mem_ustr k (defaulted_names c setting)))).
+      rewrite <- Hn at 1. rewrite (defaulted_not_present s Hs Hap). simpl.
+      apply amem_alookup in Hpres. destruct Hpres as [v Hv]. rewrite Hv. auto.
+    - rewrite <- Hfam in *. revert Hnc. apply forallb_imp. intros k _. apply jconstr_mono. lia.
   Qed.
 End Obj.
